@@ -157,7 +157,12 @@ def run(ctx, prove=True):
             ctx.bump("fixed_files")
             if case["templated"]:
                 if canon_tpl(out) != canon_tpl(case["expect"]):
-                    ctx.violation("after newline normalisation the fixed file differs from the input outside the fixed ranges (template code next to a whitespace fix)", dict(info, out=out.hex()))
+                    key = None
+                    if case["undecodable"]:
+                        esc = case["expect"].decode("utf-8" if case["enc"] != "ascii" else "ascii", "backslashreplace").encode("utf-8")
+                        if canon_tpl(out) == canon_tpl(esc):
+                            key = "callsite:load_raw_file_and_config:backslashreplace"
+                    ctx.violation("after newline normalisation the fixed file differs from the input outside the fixed ranges (template code next to a whitespace fix)", dict(info, out=out.hex()), key=key)
             elif norm_nl(out, case["enc"]) != norm_nl(case["expect"], case["enc"]):
                 key = None
                 if case["undecodable"]:
